@@ -65,9 +65,9 @@ var managedNames = []string{
 }
 
 var cipChoices = []string{"", "", "X-Real-Ip", "X-Forwarded-For", "X-Client-Ip", "X-Client-Ip", "x-client-ip", "X-CLIENT-IP", "Cf-Connecting-Ip"}
-var cipRare = []string{"x-real-ip", "x-forwarded-for", "Forwarded", "X-Forwarded-Host", "X-Forwarded-Proto", "Upgrade", "X-Tls", "bad name"}
+var cipRare = []string{"x-real-ip", "x-forwarded-for", "Forwarded", "X-Forwarded-Host", "X-Forwarded-Proto", "Upgrade", "X-Tls", "bad name", "Keep-Alive"}
 var tlshChoices = []string{"", "", "X-Tls", "Secure", "x-forwarded-ssl", "X-Tls"}
-var tlshRare = []string{"X-Client-Ip", "Forwarded", "X-Forwarded-For", "X-Real-Ip", "Strict-Transport-Security"}
+var tlshRare = []string{"X-Client-Ip", "Forwarded", "X-Forwarded-For", "X-Real-Ip", "Strict-Transport-Security", "Te"}
 var tlsvChoices = []string{"on", "true", "", "1"}
 var lipChoices = []string{"", "5.6.7.8", "fe80::1"}
 var otherNames = []string{"Accept", "User-Agent", "X-Other", "Cookie"}
@@ -209,7 +209,7 @@ func genConnection(r *hx.Rand, c cfgIn) wireHdr {
 	var toks []string
 	for n := 1 + r.Intn(3); n > 0; n-- {
 		if r.Chance(1, 4) {
-			toks = append(toks, r.Pick([]string{"X-Other", "keep-alive", "", "Cookie", "close", "X-Tlsx"}))
+			toks = append(toks, r.Pick([]string{"X-Other", "keep-alive", "", "Cookie", "close", "X-Tlsx", "Upgrade", "upgrade"}))
 		} else {
 			toks = append(toks, caseVariant(r, r.Pick(names)))
 		}
